@@ -2,7 +2,11 @@
 """developer tool: apply a textual mutation (or a .diff) to /repo, run checks, always revert.
 usage: trymut.py <ids comma-sep> <file under /repo> <old> <new> [tier]
        trymut.py <ids> --diff <patch.diff> [tier]"""
-import subprocess, sys, os
+import subprocess, sys, os, signal
+def _term(*a):
+  raise SystemExit(143)
+signal.signal(signal.SIGTERM, _term)
+signal.signal(signal.SIGINT, _term)
 ids = sys.argv[1].split(',')
 tier = 'quick'
 st = subprocess.run(['git', '-C', '/repo', 'status', '--porcelain', '--untracked-files=no'], capture_output=True, text=True).stdout
@@ -21,7 +25,12 @@ try:
     open(p, 'w', newline='').write(s.replace(old, new, 1))
     if len(sys.argv) > 5: tier = sys.argv[5]
   for i in ids:
-    r = subprocess.run(['/verif/check', i, tier], capture_output=True, text=True)
+    try:
+      r = subprocess.run(['/verif/check', i, tier], capture_output=True, text=True, timeout=int(os.environ.get('MUT_TIMEOUT', '1500')))
+    except subprocess.TimeoutExpired:
+      subprocess.run(['pkill', '-f', 'checks.' + i.lower()])
+      print('%s TIMEOUT' % i)
+      continue
     lines = r.stdout.strip().splitlines()
     v = [l for l in lines if l.startswith('VIOLATION')]
     print('%s exit=%d violations=%d :: %s' % (i, r.returncode, len(v), lines[-1] if lines else r.stderr[-300:]))
